@@ -323,6 +323,27 @@ def matrix_pool(tier, script_fn):
         ('reA', RE_A),
         ('reB', RE_B),
     ]
+    # Twins: equal as BareScript values, different for the host (key insertion order, int/float spelling above 2**53,
+    # bool next to number inside containers). Adjacent entries are meant to be compared with each other.
+    big = 2 ** 53 + 2     # exactly representable as a double, below 1e16 (so both spellings have the same text)
+    pool += [
+        ('{a:1,b:2}', {'a': 1, 'b': 2}),
+        ('{b:2,a:1}rev', {'b': 2, 'a': 1}),
+        ('{a:2,b:1}', {'a': 2, 'b': 1}),
+        ('[{a:1,b:2}]', [{'a': 1, 'b': 2}]),
+        ('[{b:2,a:1}rev]', [{'b': 2, 'a': 1}]),
+        ('{k:{a:1,b:2}}', {'k': {'a': 1, 'b': 2}}),
+        ('{k:{b:2,a:1}rev}', {'k': {'b': 2, 'a': 1}}),
+        ('2^53+2 int', big),
+        ('2^53+2 float', float(big)),
+        ('2^53+1 int', big - 1),
+        ('[2^53+2 int]', [big]),
+        ('[2^53+2 float]', [float(big)]),
+        ('[true]', [True]),
+        ('[1.0]', [1.0]),
+        ('{a:true}', {'a': True}),
+        ('{a:1.0}', {'a': 1.0}),
+    ]
     if tier != 'quick':
         pool += [
             ('-3', -3),
@@ -370,28 +391,46 @@ ALIAS_POOL = [
 EFFECT_LABELS = [('&&', 2), ('||', 2), ('+', 2), ('<', 2), ('==', 2), ('ff', 2), ('arrayNew', 2), ('if2', 2),
                  ('!', 1), ('group', 1), ('if1', 1), ('if3', 3)]
 
+# The 'order' family: every operator and every call arity as a node kind. 'neg' is unary minus; hhN a host function,
+# ffN a script function (declared with two parameters) called with N arguments; arrayNew a library function.
+ORDER_LABELS = ([(op, 2) for op in OPS14] + [('if2', 2), ('hh2', 2), ('ff2', 2), ('arrayNew', 2)] +
+                [('!', 1), ('neg', 1), ('group', 1), ('if1', 1), ('hh1', 1), ('ff1', 1)] +
+                [('if3', 3), ('hh3', 3), ('ff3', 3)])
+LABEL_SETS = {'effects': EFFECT_LABELS, 'order': ORDER_LABELS}
 
 _SHAPES = {}
 
 
-def effect_shape_list(n):
-    """Every tree shape with exactly n internal nodes over EFFECT_LABELS, as a cached list: nested tuples
+def effect_shape_list(n, which='effects'):
+    """Every tree shape with exactly n internal nodes over LABEL_SETS[which], as a cached list: nested tuples
     (label, kid, ...); a leaf is None. Order: by root label, then by child sizes, then children in their own order."""
-    if n not in _SHAPES:
+    if (which, n) not in _SHAPES:
         if n == 0:
-            _SHAPES[n] = [None]
+            _SHAPES[(which, n)] = [None]
         else:
             out = []
-            for label, arity in EFFECT_LABELS:
+            for label, arity in LABEL_SETS[which]:
                 for split in compositions(n - 1, arity):
-                    for kids in itertools.product(*[effect_shape_list(s) for s in split]):
+                    for kids in itertools.product(*[effect_shape_list(s, which) for s in split]):
                         out.append((label,) + kids)
-            _SHAPES[n] = out
-    return _SHAPES[n]
+            _SHAPES[(which, n)] = out
+    return _SHAPES[(which, n)]
 
 
-def effect_shapes(n):
-    return iter(effect_shape_list(n))
+def effect_shapes(n, which='effects'):
+    return iter(effect_shape_list(n, which))
+
+
+def label_counts(which):
+    """(unary, binary, ternary) numbers of labels - the parameters of tree_count."""
+    arities = [a for _, a in LABEL_SETS[which]]
+    return arities.count(1), arities.count(2), arities.count(3)
+
+
+def _call_name(label):
+    if label.startswith('if'):
+        return 'if'
+    return label.rstrip('123')
 
 
 def effect_model(shape):
@@ -405,15 +444,13 @@ def effect_model(shape):
             return {'function': {'name': 'tt', 'args': [{'number': float(i)}]}}
         label = node[0]
         kids = [build(k) for k in node[1:]]
-        if label in ('&&', '||', '+', '<', '=='):
+        if label in LEVELS_OF:
             return {'binary': {'op': label, 'left': kids[0], 'right': kids[1]}}
-        if label == '!':
-            return {'unary': {'op': '!', 'expr': kids[0]}}
+        if label in ('!', 'neg'):
+            return {'unary': {'op': '!' if label == '!' else '-', 'expr': kids[0]}}
         if label == 'group':
             return {'group': kids[0]}
-        if label in ('if1', 'if2', 'if3'):
-            return {'function': {'name': 'if', 'args': kids}}
-        return {'function': {'name': label, 'args': kids}}
+        return {'function': {'name': _call_name(label), 'args': kids}}
 
     model = build(shape)
     return model, counter[0]
@@ -430,13 +467,15 @@ def effect_text(shape):
             return f'tt({i})'
         label = node[0]
         kids = [show(k) for k in node[1:]]
-        if label in ('&&', '||', '+', '<', '=='):
+        if label in LEVELS_OF:
             return f'({kids[0]} {label} {kids[1]})'
-        if label == '!':
-            return '!' + kids[0]
+        if label in ('!', 'neg'):
+            return ('!' if label == '!' else '-') + kids[0]
         if label == 'group':
             return '(' + kids[0] + ')'
-        name = 'if' if label.startswith('if') else label
-        return name + '(' + ', '.join(kids) + ')'
+        return _call_name(label) + '(' + ', '.join(kids) + ')'
 
     return show(shape)
+
+
+LEVELS_OF = set(OPS14)
